@@ -40,7 +40,19 @@ type IngOp struct {
 	Cookie bool   `json:"cookie,omitempty"`
 }
 
+// ingStallAddr is the only server of stallzone.test.
+const ingStallAddr = "192.0.9.6"
+
+// IngStall: the server of stallzone.test. answers nothing until UntilMs after the load starts,
+// and properly from then on. A and B index two operations (aliases to one target there).
+type IngStall struct {
+	UntilMs int `json:"until_ms"`
+	A       int `json:"a"`
+	B       int `json:"b"`
+}
+
 type IngScenario struct {
+	Stall *IngStall `json:"stall,omitempty"`
 	Ing       world.IngSpec  `json:"ing"`
 	Ops       []IngOp        `json:"ops"`
 	Warm      []int          `json:"warm,omitempty"` // names asked (and cached) before the load
@@ -117,7 +129,14 @@ const (
 	ingSizedN    = 80
 )
 
+// ingNameAlias + k: alK.uniqzone.test., a CNAME to t(k%2).stallzone.test. - different questions
+// whose resolution meets in one upstream lookup
+const ingNameAlias = 5000
+
 func ingName(i int) string {
+	if i >= ingNameAlias {
+		return fmt.Sprintf("al%d.uniqzone.test.", (i-ingNameAlias)%4)
+	}
 	if i == ingNameSized {
 		return "sz.uniqzone.test."
 	}
@@ -210,7 +229,11 @@ func ingSpecZones() []world.ZoneSpec {
 		garb = append(garb, fmt.Sprintf("garb%d.garbzone.test. 300 IN A 10.9.0.%d", i, i+1))
 	}
 	slow = append(slow, "bigslow.slowzone.test. 300 IN TXT "+txtOf(1500))
+	for k := 0; k < 4; k++ {
+		recs = append(recs, fmt.Sprintf("al%d.uniqzone.test. 300 IN CNAME t%d.stallzone.test.", k, k%2))
+	}
 	return []world.ZoneSpec{
+		{Name: "stallzone.test.", NSNames: []string{"ns.stallzone.test."}, Addrs: []string{ingStallAddr}, Records: []string{"t0.stallzone.test. 300 IN A 10.6.0.1", "t1.stallzone.test. 300 IN A 10.6.0.2"}},
 		{Name: ".", NSNames: []string{"a.root-servers.net."}, Addrs: []string{"198.41.0.4"}},
 		{Name: "test.", NSNames: []string{"ns.test."}, Addrs: []string{"192.0.9.1"}},
 		{Name: "uniqzone.test.", NSNames: []string{"ns.uniqzone.test."}, Addrs: []string{"192.0.9.2"}, Records: recs},
@@ -330,7 +353,11 @@ func execIng(sc *IngScenario, tr *kit.Trace, res *kit.Result) *ingRun {
 		{Kind: "delay", Suffix: "slowzone.test.", Addr: "192.0.9.3", Delay: 1200 * time.Millisecond},
 		{Kind: "drop", Addr: "192.0.9.4"},
 	}, sc.NetFaults...)
-	g.Net.SetFaults(faults)
+	if sc.Stall != nil {
+		g.Net.SetFaults(append(append([]simnet.Fault(nil), faults...), simnet.Fault{Kind: "drop", Addr: ingStallAddr}))
+	} else {
+		g.Net.SetFaults(faults)
+	}
 	g.Hook = func(addr netip.Addr, q *simnet.Query, honest *authsim.Answer) []simnet.Reply {
 		if addr.String() != "192.0.9.5" || q.Msg == nil || len(q.Msg.Question) == 0 {
 			return nil
@@ -487,6 +514,13 @@ func execIng(sc *IngScenario, tr *kit.Trace, res *kit.Result) *ingRun {
 			cr.ClosedAt = g.Now()
 			cmu.Unlock()
 		}(cr)
+	}
+	if sc.Stall != nil {
+		go func() {
+			time.Sleep(time.Duration(sc.Stall.UntilMs) * time.Millisecond)
+			g.Net.SetFaults(faults) // the stalled server is back
+			tr.AddAt(g.Now(), "the server of stallzone.test. answers again")
+		}()
 	}
 	for _, i := range order {
 		op := ops[i]
@@ -820,6 +854,59 @@ func genIng(r *kit.RNG, flavour string) *IngScenario {
 			op.Kind = kit.Pick(r, []string{"short", "response", "notimp", "formerr", "badbody"})
 		}
 		sc.Ops = append(sc.Ops, op)
+	}
+	if flavour != "c11" && r.Chance(0.15) {
+		// cached-failure recipe: a name in the dead zone fails (query timeout or all servers
+		// failed, whichever comes first); while the failure is remembered the name is asked
+		// again, each time right behind answered questions of other clients, so that the failure
+		// reply is built in a buffer that has just carried somebody else's records
+		dead := ingNameDead + r.Intn(4)
+		t0 := r.Intn(at + 1)
+		sc.Ops = append(sc.Ops, IngOp{AtMs: t0, Client: r.Intn(nclients), Sock: r.Intn(2), Name: dead, ID: uint16(r.Range(1, 3))})
+		for _, off := range []int{300, 900, 1800, 2600, 3500} {
+			tt := t0 + sc.TimeoutS*1000 + off
+			for k, n := 0, r.Range(1, 3); k < n; k++ {
+				h := r.Intn(ingHosts)
+				sc.Warm = append(sc.Warm, h)
+				sc.Ops = append(sc.Ops, IngOp{AtMs: tt, Client: r.Intn(nclients), Sock: r.Intn(2), Name: h, ID: uint16(r.Range(1, 3)), EDNS: kit.Pick(r, []int{0, 1232})})
+			}
+			op := IngOp{AtMs: tt + r.Intn(2), Client: r.Intn(nclients), Sock: r.Intn(2), Name: dead, ID: uint16(r.Range(1, 3))}
+			if r.Chance(0.6) {
+				op.EDNS = kit.Pick(r, []int{512, 1232})
+			}
+			sc.Ops = append(sc.Ops, op)
+		}
+		if at < t0+sc.TimeoutS*1000+3600 {
+			at = t0 + sc.TimeoutS*1000 + 3600
+		}
+	}
+	if flavour == "c11" && r.Chance(0.1) {
+		// stalled-server recipe: two clients ask different aliases of one name whose zone's only
+		// server is silent; their resolutions meet in one upstream lookup, led by the first. The
+		// first client's time runs out while that lookup is still waiting for its first reply
+		// (the query budget, 1 s, is shorter than one upstream attempt, 1.5 s, so nothing but
+		// the client's own deadline ends it); the second client arrived later, after the
+		// server had come back, and has time left. The first client's expiry is its own affair.
+		// (A variant with a 4 s budget only adds reach: there the shared lookup can also end with
+		// every attempt failed, which is a failure for both clients.)
+		sc.TimeoutS = kit.Pick(r, []int{1, 1, 1, 4})
+		sc.Ing.Workers, sc.Ing.Queue, sc.Ing.RcvBuf = r.Range(6, 10), 16, 0
+		sc.MaxConcurrent = 0
+		t0 := r.Intn(at + 1)
+		k := r.Intn(2)
+		a := IngOp{AtMs: t0, Client: 0, Sock: r.Intn(2), Name: ingNameAlias + k, ID: uint16(r.Range(1, 3)), EDNS: 1232}
+		// (the server is back before the second client asks: alone, it would be answered at once)
+		heal := t0 + r.Range(200, 500)
+		b := IngOp{AtMs: heal + r.Range(40, 350), Client: 1, Sock: r.Intn(2), Name: ingNameAlias + k + 2, ID: uint16(r.Range(1, 3)), EDNS: 1232}
+		sc.Stall = &IngStall{UntilMs: heal, A: len(sc.Ops), B: len(sc.Ops) + 1}
+		if sc.TimeoutS > 1 {
+			b.AtMs = t0 + sc.TimeoutS*1000 - r.Range(600, 1600)
+			sc.Stall.UntilMs = t0 + sc.TimeoutS*1000 - r.Range(40, 300)
+		}
+		sc.Ops = append(sc.Ops, a, b)
+		if at < b.AtMs {
+			at = b.AtMs
+		}
 	}
 	if flavour == "c11" && r.Chance(0.3) {
 		// many distinct lookups in one slow zone at once: past the per-zone in-flight quota
